@@ -389,3 +389,59 @@ def search_meta_entry_points(ck, sr, drv, tier: str) -> None:
                         sr.distinct += 1
     finally:
         shutil.rmtree(tmp, ignore_errors=True)
+
+def search_incomplete_entry_points(ck, sr) -> None:
+    """An incomplete escape (`\\x4`, `\\u12`, `\\U0001`, `\\N{`, `\\N{A`, `\\x` at the end) raises SyntaxError under RAWCHARS at EVERY entry point
+    and in EVERY pattern role — also a role whose compiled pattern would never be consulted (added after seeded change C20h: WcMatch
+    skipped compiling the folder-exclude pattern without RECURSIVE, so a malformed one was accepted silently)."""
+    from framework import Failing
+    from wcmatch import fnmatch as F, glob as G, wcmatch as WM, pathlib as WP
+    sr.note = search_incomplete_entry_points.__doc__.replace('\n    ', ' ')
+    bad = ['\\x4', '\\u12', '\\U0001', '\\N{', '\\N{A', 'a\\x', '*.t\\u00', '\\x4|b', '{a,\\x1}']
+    tmp = tempfile.mkdtemp(prefix='c20i-', dir='/tmp')
+    try:
+        open(os.path.join(tmp, 'a.txt'), 'w').close()
+        os.makedirs(os.path.join(tmp, 'd'))
+        for b in bad:
+            for isb in (False, True):
+                if isb and ('\\u' in b or '\\U' in b or '\\N' in b):
+                    continue            # bytes patterns have no \u \U \N escapes
+                conv = (lambda x: x.encode('latin-1')) if isb else (lambda x: x)
+                root = conv(tmp)
+                pb, ok = conv(b), conv('*')
+                calls = [
+                    ('fnmatch.fnmatch', lambda: F.fnmatch(conv('a'), pb, flags=F.RAWCHARS | F.SPLIT | F.BRACE)),
+                    ('fnmatch.fnmatch[exclude]', lambda: F.fnmatch(conv('a'), ok, flags=F.RAWCHARS, exclude=pb)),
+                    ('fnmatch.filter', lambda: F.filter([], pb, flags=F.RAWCHARS)),
+                    ('fnmatch.translate', lambda: F.translate(pb, flags=F.RAWCHARS)),
+                    ('fnmatch.compile[exclude]', lambda: F.compile(ok, flags=F.RAWCHARS, exclude=pb)),
+                    ('glob.globmatch', lambda: G.globmatch(conv('a'), pb, flags=G.RAWCHARS)),
+                    ('glob.globfilter[exclude]', lambda: G.globfilter([conv('a')], ok, flags=G.RAWCHARS, exclude=pb)),
+                    ('glob.translate', lambda: G.translate(pb, flags=G.RAWCHARS)),
+                    ('glob.glob', lambda: G.glob(pb, flags=G.RAWCHARS, root_dir=root)),
+                    ('glob.iglob[exclude]', lambda: list(G.iglob(ok, flags=G.RAWCHARS, root_dir=root, exclude=pb))),
+                    ('glob.glob[second of a list]', lambda: G.glob([ok, pb], flags=G.RAWCHARS, root_dir=root)),
+                ]
+                for wfl in (0, WM.RECURSIVE, WM.RECURSIVE | WM.PATHNAME, WM.FILEPATHNAME, WM.DIRPATHNAME, WM.HIDDEN | WM.SYMLINKS):
+                    calls.append((f'wcmatch.WcMatch[file pattern, flags {wfl}]', lambda wfl=wfl: WM.WcMatch(root, pb, flags=wfl | WM.RAWCHARS).match()))
+                    calls.append((f'wcmatch.WcMatch[exclude pattern, flags {wfl}]', lambda wfl=wfl: WM.WcMatch(root, ok, pb, flags=wfl | WM.RAWCHARS).match()))
+                if not isb:
+                    calls += [('pathlib.Path.glob', lambda: list(WP.Path(tmp).glob(b, flags=WP.RAWCHARS))),
+                              ('pathlib.Path.rglob[exclude]', lambda: list(WP.Path(tmp).rglob('*', flags=WP.RAWCHARS, exclude=b))),
+                              ('pathlib.PurePath.match', lambda: WP.PurePath('a').match(b, flags=WP.RAWCHARS)),
+                              ('pathlib.PurePath.globmatch[exclude]', lambda: WP.PurePath('a').globmatch('*', flags=WP.RAWCHARS, exclude=b))]
+                for api, call in calls:
+                    sr.evaluations += 1
+                    try:
+                        out = call()
+                        ck.report(Failing(f'{api}: the incomplete escape {b!r} ({"bytes" if isb else "str"}) under RAWCHARS was accepted',
+                                          {'api': api, 'pattern': b, 'bytes': isb}, 'SyntaxError', repr(out)[:120]), None)
+                        sr.histogram['accepted'] = sr.histogram.get('accepted', 0) + 1
+                    except SyntaxError:
+                        sr.histogram['SyntaxError'] = sr.histogram.get('SyntaxError', 0) + 1
+                    except Exception as ex:  # noqa: BLE001
+                        ck.report(Failing(f'{api}: the incomplete escape {b!r} under RAWCHARS raised {type(ex).__name__}, not SyntaxError',
+                                          {'api': api, 'pattern': b, 'bytes': isb}, 'SyntaxError', f'{type(ex).__name__}: {ex}'[:160]), None)
+        sr.distinct = len(bad)
+    finally:
+        shutil.rmtree(tmp, ignore_errors=True)
